@@ -5,6 +5,7 @@ import (
 	"go/token"
 	"go/types"
 	"math/big"
+	"sort"
 	"strings"
 
 	"golang.org/x/tools/go/ssa"
@@ -118,7 +119,29 @@ func (e *Enc) dispatch(fr *Frame, st *State, ci calleeInfo, cc *ssa.CallCommon, 
 			return e.applySpec(fr, st, spec, ci, args, argTypes, pos)
 		}
 	}
-	// 3. inline
+	// 3. library functions without a model of their own
+	if (ci.fn == nil || !e.P.inModule(ci.fn)) && strings.HasPrefix(ci.name, "(*uint256.Int).") {
+		// any other method of the uint256 library: over-approximated. By the library's convention a method assigns
+		// its receiver and (DivMod-style) possibly other *Int arguments, reads its arguments and returns the
+		// receiver; every *Int cell passed in becomes unknown, every non-pointer result is unknown.
+		return e.havocU256Call(fr, st, ci, args, argTypes, pos)
+	}
+	if pureLibrary[ci.name] {
+		// value-level helpers of go-ethereum's common / crypto packages: they write no memory reachable from their
+		// arguments; the result is unknown (a byte-slice result may be a new object or alias an argument)
+		e.UsedExtern[ci.name+" (over-approximated: writes nothing, result unknown)"] = true
+		e.bumpAlloc(st)
+		var out []*Val
+		for _, rt := range resultTypes(ci.sig) {
+			t := e.C.Fresh("r:"+shortFn(ci.name), sortOf(rt))
+			if wf := e.wellFormed(t, rt, st); !wf.IsTrue() {
+				e.assume(st, wf)
+			}
+			out = append(out, &Val{T: t})
+		}
+		return packResults(out)
+	}
+	// 4. inline
 	if ci.fn != nil && len(ci.fn.Blocks) > 0 {
 		if !e.P.inModule(ci.fn) {
 			unsupported("unmodelled callee %s (outside the module, no contract)", ci.name)
@@ -126,7 +149,7 @@ func (e *Enc) dispatch(fr *Frame, st *State, ci calleeInfo, cc *ssa.CallCommon, 
 		e.Inlined[ci.name] = true
 		pid := joinID(fr.PathID, "inl:"+shortFn(ci.name))
 		out, vals := e.encodeBody(ci.fn, args, ci.bind, st, fr, pid)
-		st.Heaps, st.Alloc, st.Reach = out.Heaps, out.Alloc, out.Reach
+		st.Heaps, st.Alloc, st.Reach, st.Gen = out.Heaps, out.Alloc, out.Reach, out.Gen
 		return packResults(vals)
 	}
 	unsupported("unmodelled callee %s", ci.name)
@@ -276,6 +299,14 @@ func (e *Enc) applySpec(fr *Frame, st *State, spec *FuncSpec, ci calleeInfo, arg
 			unsupported("precondition %s of %s: %v", r.Label, spec.Name, err)
 		}
 		props := append(append([]string{}, e.Props...), r.Props...)
+		if len(props) == 0 {
+			// neither the caller's safety sweep nor the clause names a property: the obligation belongs to every
+			// property the callee's contract serves (it must not fall outside all of them)
+			for pr := range specProps(spec) {
+				props = append(props, pr)
+			}
+			sort.Strings(props)
+		}
 		e.oblige(fr, st, "precondition", shortFn(spec.Name)+"."+r.Label, fmt.Sprintf("call of %s at %s establishes: %s", spec.Name, e.posOf(pos), r.Src), pos, t, props)
 		e.assume(st, t)
 	}
@@ -288,7 +319,7 @@ func (e *Enc) applySpec(fr *Frame, st *State, spec *FuncSpec, ci calleeInfo, arg
 	if spec.ModifiesAll {
 		// "modifies *": the callee may write any heap, including heaps no instruction has touched yet
 		mods = mods[:0]
-		e.havocAll(st)
+		e.havocAll(st, fr)
 	}
 	for _, h := range mods {
 		e.ensureHeapKnown(h)
@@ -435,6 +466,47 @@ func (e *Enc) promisesZeroOffset(spec *FuncSpec, sig *types.Signature, i int) bo
 	return false
 }
 
+var pureLibrary = map[string]bool{
+	"github.com/ethereum/go-ethereum/log.Error": true, "github.com/ethereum/go-ethereum/log.Warn": true,
+	"github.com/ethereum/go-ethereum/log.Info": true, "github.com/ethereum/go-ethereum/log.Debug": true,
+	"common.RightPadBytes": true, "common.LeftPadBytes": true, "common.BigToHash": true, "common.BigToAddress": true,
+	"common.HexToAddress": true, "common.HexToHash": true, "common.Bytes2Hex": true,
+	"github.com/ethereum/go-ethereum/crypto.CreateAddress":  true,
+	"github.com/ethereum/go-ethereum/crypto.CreateAddress2": true,
+	"github.com/ethereum/go-ethereum/crypto.Keccak256Hash":  true,
+	"github.com/ethereum/go-ethereum/crypto.Keccak256":      true,
+	"(*uint256.Int).ToBig":                                  true, "(*uint256.Int).Bytes": true, "(*uint256.Int).Bytes32": true, "(*uint256.Int).Bytes20": true,
+	"(*math/big.Int).Sign": true, "(*math/big.Int).BitLen": true, "(*math/big.Int).Cmp": true, "(*math/big.Int).Uint64": true,
+	"(*math/big.Int).IsUint64": true,
+}
+
+func (e *Enc) havocU256Call(fr *Frame, st *State, ci calleeInfo, args []*Val, argTypes []types.Type, pos token.Pos) *Val {
+	c := e.C
+	e.UsedExtern[ci.name+" (over-approximated: assigns every *uint256.Int it is given)"] = true
+	for i, a := range args {
+		if i >= len(argTypes) {
+			break
+		}
+		if pt, ok := argTypes[i].Underlying().(*types.Pointer); ok && isU256(pt.Elem()) {
+			e.writeU256(fr, st, a, c.Fresh("u256:"+shortFn(ci.name), smt.BV(256)), pos)
+		}
+	}
+	rts := resultTypes(ci.sig)
+	var out []*Val
+	for _, rt := range rts {
+		if pt, ok := rt.Underlying().(*types.Pointer); ok && isU256(pt.Elem()) {
+			out = append(out, args[0])
+			continue
+		}
+		t := c.Fresh("r:"+shortFn(ci.name), sortOf(rt))
+		if wf := e.wellFormed(t, rt, st); !wf.IsTrue() {
+			e.assume(st, wf)
+		}
+		out = append(out, &Val{T: t})
+	}
+	return packResults(out)
+}
+
 func (e *Enc) ensureHeapKnown(h string) {
 	if _, ok := e.hsorts[h]; ok {
 		return
@@ -520,15 +592,28 @@ func (e *Enc) initLocalGhosts(fr *Frame, st *State) {
 }
 
 func (e *Enc) bindParams(env *Env, fr *Frame) {
-	for _, p := range fr.Fn.Params {
+	// by source name, and by the names of the contract header when it lists exactly the parameters (positional)
+	var alias []string
+	if fr.spec != nil && len(fr.spec.ParamNames) == len(fr.Fn.Params) {
+		alias = fr.spec.ParamNames
+	}
+	for i, p := range fr.Fn.Params {
 		v := fr.Vals[p]
 		if v == nil {
 			continue
 		}
+		var sv *SVal
 		if v.T != nil {
-			env.vars[p.Name()] = &SVal{T: v.T, Typ: p.Type()}
+			sv = &SVal{T: v.T, Typ: p.Type()}
 		} else if v.Loc != nil {
-			env.vars[p.Name()] = &SVal{T: e.valTerm(v), Typ: p.Type()}
+			sv = &SVal{T: e.valTerm(v), Typ: p.Type()}
+		}
+		if sv == nil {
+			continue
+		}
+		env.vars[p.Name()] = sv
+		if alias != nil && alias[i] != "" && alias[i] != "_" {
+			env.vars[alias[i]] = sv
 		}
 	}
 }
@@ -788,7 +873,7 @@ func (e *Enc) appendOp(fr *Frame, st *State, cc *ssa.CallCommon, args []*Val, po
 	e.assume(b, c.And(c.Cmp("bvuge", nCap, newLen), c.Cmp("bvult", nCap, e.bv64(1<<40))))
 	resB := e.mkSlice(nObj, e.bv64(0), newLen, nCap)
 	m := e.mergeStates(a.Reach, a, b)
-	st.Heaps, st.Alloc, st.Reach = m.Heaps, m.Alloc, m.Reach
+	st.Heaps, st.Alloc, st.Reach, st.Gen = m.Heaps, m.Alloc, m.Reach, m.Gen
 	return &Val{T: c.Ite(inplace, resA, resB)}
 }
 
